@@ -93,13 +93,13 @@ func replaceEscapeSeq(e []byte) []byte {
 			panic(err)
 		}
 		if b >= 256 {
-			panic(fmt.Errorf("decimal escape sequence out of range near '%s'", e))
+			panic(fmt.Errorf("decimal escape sequence '%s' out of range", e))
 		}
 		return []byte{byte(b)}
 	case 'u', 'U':
 		i, err := strconv.ParseInt(string(e[3:len(e)-1]), 16, 32)
 		if err != nil {
-			panic(fmt.Errorf("unicode escape sequence out of range near '%s'", e))
+			panic(fmt.Errorf("unicode escape sequence '%s' out of range", e))
 		}
 		var p [6]byte
 		n := luastrings.UTF8EncodeInt32(p[:], int32(i))
